@@ -9,7 +9,9 @@ get_location_and_length / get_tags.  Reference model: an independent list of
 (Weaker fit, stated in DESIGN.md: no clock or fault; the simulator contributes
 the interleaving of parties on shared state and replayable, shrunk histories.)
 """
+import collections
 import itertools
+import os
 
 from rigsim.seams import rig_module
 from rigsim.runner import innermost_rig_frame
@@ -148,6 +150,63 @@ class BitfieldEngine(object):
             best = max(best, total)
         return best
 
+    def first_fit_model(self):
+        """rig's documented strategy replayed on the model: the tree keyed as
+        rig keys it (children by the values of the node's own fields, in
+        definition order), scopes laid out leaf-first, each field at the first
+        position free of every already placed field it could be present
+        with.  -> {uid: (start, length)}, or None when a field finds no room.
+        Used only to tell the strategy's own incompleteness (known finding)
+        from any other failure of assign_fields."""
+        class Node(object):
+            def __init__(self):
+                self.fields = []
+                self.children = collections.OrderedDict()
+        root = Node()
+        for f in self.fields:
+            fv = {g.ident: v for g, v in self.all_reqs(f).items()}
+            node = root
+            while fv:
+                meet = tuple((h.ident, fv[h.ident]) for h in node.fields
+                             if h.ident in fv)
+                if not meet:
+                    return None
+                node = node.children.setdefault(meet, Node())
+                for i, _v in meet:
+                    del fv[i]
+            node.fields.append(f)
+        pos = {f.uid: (f.astart, f.alen) for f in self.fields
+               if f.astart is not None and f.alen is not None}
+        L = self.length
+
+        def assign(node, fv):
+            bits = 0
+            for g in self.fields:
+                if g.uid in pos and self.potential(g, fv):
+                    bits |= ((1 << pos[g.uid][1]) - 1) << pos[g.uid][0]
+            for f in node.fields:
+                if f.uid in pos:
+                    continue
+                n = f.dlen or max(1, f.maxv.bit_length())
+                for bit in range(0, L - n + 1):
+                    fb = ((1 << n) - 1) << bit
+                    if not bits & fb:
+                        pos[f.uid] = (bit, n)
+                        bits |= fb
+                        break
+                else:
+                    return False
+            return True
+
+        def rec(node, fv):
+            for reqs, child in node.children.items():
+                cfv = dict(reqs)
+                cfv.update(fv)
+                if not rec(child, cfv):
+                    return False
+            return assign(node, fv)
+        return pos if rec(root, {}) else None
+
     # -- helpers -------------------------------------------------------------
     def level(self, f):
         return 0 if not f.reqs else 1 + max(self.level(g) for g in f.reqs)
@@ -204,6 +263,10 @@ class BitfieldEngine(object):
         ident = IDENTS[t.draw(len(IDENTS))]
         mode = t.weighted([4, 2, 2, 2])
         dlen = dstart = None
+        if self.packed:
+            # fixed widths, floating positions, sized to fill the bit field
+            mode = 0
+            dlen = 1 + t.draw(max(1, (L + 1) // 3))
         if mode in (1, 3):
             dlen = 1 + t.draw(min(L, 12)) if t.draw(8) else \
                 [0, -1, L, L + 1][t.draw(4)]
@@ -427,10 +490,14 @@ class BitfieldEngine(object):
         complete = no_explicit and need <= self.length and fits_len and \
             all(f.maxv < (1 << 40) for f in self.fields) and \
             all(f.astart is None for f in self.fields)
+        model = None
         if complete:
             w.probe("completeness_instance")
             if need == self.length:
                 w.probe("exact_fit")
+            model = self.first_fit_model()
+            if model is None:
+                w.probe("first_fit_strategy_incomplete")
         w.trace.ev("op", "assign_fields")
         w.ops.append("%s.assign_fields()  [widest co-present set: %d of %d "
                      "bits]" % (v.name, need, self.length))
@@ -445,7 +512,8 @@ class BitfieldEngine(object):
                           "field is explicitly positioned and the fields that "
                           "can be present together need at most %d of the %d "
                           "bits" % (val, need, self.length),
-                          kind="completeness", exact=(need == self.length))
+                          kind="completeness",
+                          first_fit="fails" if model is None else "succeeds")
             self.ended = True
             return
         self.assigned_once = True
@@ -466,6 +534,12 @@ class BitfieldEngine(object):
             f.astart, f.alen = ll
             for g, val in self.all_reqs(f).items():
                 g.maxv = max(g.maxv, val)
+        if complete and os.environ.get("VERIF_C08_VALIDATE_MODEL"):
+            # development aid: is the replayed strategy faithful to rig's?
+            got = {f.uid: (f.astart, f.alen) for f in self.fields}
+            if model != got:
+                w.violate("MODEL", "first-fit model %r, rig %r" % (model, got),
+                          kind="model-mismatch")
         self.check_layout()
         w.ops_completed += 1
 
@@ -652,14 +726,20 @@ class BitfieldEngine(object):
         self.keys = []
         self.ended = False
         self.shared_tags = [set(["routing"]), set(["filter", "t3"])]
-        w.ops.append("bf = BitField(%d)" % self.length)
+        self.packed = t.draw(6) == 0
+        if self.packed:
+            w.probe("packed_hierarchy")
+        w.ops.append("bf = BitField(%d)%s" % (
+            self.length, "  (packed: fixed widths, floating positions)"
+            if self.packed else ""))
         n_ops = t.op_count(1, 30)
         try:
             for _ in range(n_ops):
                 if self.ended:
                     break
                 t.next_segment()
-                k = t.weighted([6, 6, 2, 5])
+                k = t.weighted([6, 6, 2, 5] if not self.packed else
+                               [6, 6, 0, 1])
                 [self.op_add_field, self.op_derive, self.op_assign,
                  self.op_read][k]()
             t.begin_tail()
